@@ -41,7 +41,8 @@ def is_concrete(v, depth=0):
 def is_sym_array(v):
     """A real numpy object array that holds engine values (symbolic scalars): numpy is the container, run natively for
     everything that does not look at the elements (shape, indexing with concrete indices / masks, copying, iteration)."""
-    if type(v).__module__ != 'numpy' or not hasattr(v, 'dtype') or not hasattr(v, 'flat'):
+    import numpy as _np
+    if not isinstance(v, _np.ndarray):
         return False
     if v.dtype != object:
         return False
@@ -746,7 +747,8 @@ def getitem(interp, o, i):
         m = interp._class_lookup(o.cls, '__getitem__')
         if m is not None and interpretable(m):
             return interp.call(closure_of(m), [o, i], {})
-    if type(o).__module__ == 'numpy' and hasattr(o, 'shape'):
+    import numpy as _np
+    if isinstance(o, _np.ndarray):
         return ndarray_getitem(interp, o, i)
     raise Unsupported('subscript of %r' % (o,))
 
@@ -903,6 +905,20 @@ def setitem(interp, o, i, v):
         interp.raise_(IndexError, 'list assignment index out of range')
     if isinstance(o, tuple) or is_str(o):
         interp.raise_(TypeError, 'object does not support item assignment')
+    import numpy as _np
+    if isinstance(o, _np.ndarray):
+        # numpy item / slice assignment with concrete indices runs natively (numpy is the container; it does not
+        # look at object elements): broadcasting and its ValueError included
+        idx = list(i) if isinstance(i, tuple) else [i]
+        if not all(is_concrete(x) for x in idx):
+            raise Unsupported('array store with a symbolic index')
+        if isinstance(v, (list, tuple)) and not is_concrete(v):
+            raise Unsupported('array store of a python sequence with symbolic content')
+        try:
+            o[i] = v
+        except Exception as ex:
+            interp.raise_(type(ex), *ex.args)
+        return
     raise Unsupported('item store on %r' % (o,))
 
 
@@ -1992,6 +2008,20 @@ def _register_numpy():
             return v
         raise Unsupported('np.asarray of %r' % (v,))
     BUILTINS[np.asarray] = _asarray
+
+    def _structural(f):
+        # numpy functions that only rearrange / measure an array (they never look at object elements): run natively on
+        # arrays that hold symbolic elements, provided every other argument is concrete
+        def g(interp, *a, **k):
+            if not all(is_concrete(x) or is_sym_array(x) for x in list(a) + list(k.values())):
+                raise Unsupported('%s with symbolic non-array arguments' % f.__name__)
+            try:
+                return f(*a, **k)
+            except Exception as ex:
+                interp.raise_(type(ex), *ex.args)
+        return g
+    for _f in (np.resize, np.reshape, np.ravel, np.tile, np.transpose, np.shape, np.ndim, np.size, np.broadcast_to, np.atleast_2d):
+        BUILTINS[_f] = _structural(_f)
 
     def _rand(interp, *a):
         if a:
